@@ -370,7 +370,9 @@ def run_shard(shard, tier, seed):
                 rep.case(("plc_name_info",), outcome="ok" if ok else "bad")
                 if not ok:
                     rep.violation("helper/get_plc_name-info", f"open {o!r:.60} name {name!r:.60} info {info!r:.120}", {"case": ("plc_name_info",)})
-                vals = sorted({0, 1, 999_999, 1_000_000, 1_600_000_000_123_456, (1 << 32) - 1, 1 << 32, (1 << 53) + 1, 253402300799_000_000, 86_400_000_000 * 365 * 50 + 17})
+                far = [(1 << 33) * 1_000_000 + k for k in (-1, 0, 1, 3, 7, 999_999)] + [(1 << 34) * 1_000_000 + 1, 10_000_000_000_000_001, 100_000_000_000_000_003, 253402300799_999_999, 253402300799_999_998, 200_000_000_000_000_001]
+                near = [1_600_000_000_000_000 + k for k in (1, 3, 5, 7, 9, 499_999, 500_001, 999_999)]
+                vals = sorted({0, 1, 999_999, 1_000_000, 1_600_000_000_123_456, (1 << 32) - 1, 1 << 32, (1 << 53) + 1, 253402300799_000_000, 86_400_000_000 * 365 * 50 + 17, *far, *near})
                 for us in vals + [None]:
                     t.cip_log.clear()
                     s = call(d.set_plc_time, us)
